@@ -329,7 +329,7 @@ def specEv (st : St) (kind : String) (iid : Nat) (dn : DN) (t : Nat) (fs : List 
         else if p.sigDone && p.how = "nil" && !p.ancEntered then
           setV st s!"spec {id} done-restarted {showDN dn} had signalled Done and returned nil, yet was started again without any ancestor restarting"
         else if (certainDeath p || (ctxLiveDeath p && !p.tainted)) && !p.ancEntered && (t + 1000) * 1000 < p.tExit * 1000 + st.P.initial / 2 then
-          setV st s!"spec {id} restart-before-backoff {showDN dn} died at {p.tExit}us and was started again at {t}us, sooner than half the initial back-off interval ({st.P.initial}ns)"
+          setV st s!"spec {id} restart-before-backoff {showDN dn} died at {p.tExit}us and was started again at {t}us, sooner than half the initial back-off interval ({st.P.initial}ns); it had left with how={p.how}{if p.how = "ctx" then " (an error whose innermost cause is context.Canceled) while its own context was live and nothing else could have cancelled it" else ""} (scenario {st.name})"
         else st
     -- a restarting ancestor is the only other legitimate reason for a restart
     let recs := st.recs.map fun r => if properPrefix dn r.dn then { r with ancEntered := true } else r
@@ -373,7 +373,7 @@ def specEv (st : St) (kind : String) (iid : Nat) (dn : DN) (t : Nat) (fs : List 
     else match st.oblig with
       | (i, who) :: _ =>
         let d := match st.recs.find? (fun r => r.iid = i) with | some r => showDN r.dn | none => "?"
-        setV st s!"spec {id} group-not-cancelled {who} died but the context of {d} (instance {i}), which belongs to it or to its group, was never cancelled"
+        setV st s!"spec {id} group-not-cancelled {who} died but the context of {d} (instance {i}), which belongs to it or to its group, was never cancelled (scenario {st.name})"
       | [] => st
   | "cancelreq" => { st with cancelReq := true, tCancel := t, recs := st.recs.map fun r => if r.exited then { r with tainted := true } else r }
   | "stopped" =>
